@@ -203,4 +203,62 @@ theorem gt_translate_ge (l : Level) (d1 d2 : List Nat) (s1 s2 : Nat) (ntt : Bool
       simp only [bind, Except.bind, pure, Except.pure, Except.map, flattenCt, List.map_append, List.flatten_append]
       rw [← htl]
 
+/-- what the generated routine does with the extra polynomials of a LONGER second operand, on the buffer `O ++ Z` (`O` = the common part
+    already computed, `Z` = the zero padding of the resize): they are copied and, in a subtraction, negated -/
+theorem gt_tail_step (l : Level) (O Z d2 : List Nat) (s1 s2 : Nat) (sub : Bool) (hlt : s1 < s2)
+    (hO : O.length = s1 * (l.size * l.n)) (hZ : Z.length = (s2 - s1) * (l.size * l.n)) (h2 : d2.length = s2 * (l.size * l.n))
+    (hpl : l.n * l.size < B64) (hB : s2 * (l.size * l.n) < B64) :
+    (do let _ ← GenP.slice (O ++ Z) (s1 * (l.size * l.n)) (s2 * (l.size * l.n))
+        let src ← GenP.slice d2 (s1 * (l.size * l.n)) (s2 * (l.size * l.n))
+        let a ← GenP.copySlice (O ++ Z) (s1 * (l.size * l.n)) (s2 * (l.size * l.n)) src
+        if sub = true then
+          (do let tl ← GenP.slice a (s1 * (l.size * l.n)) (s2 * (l.size * l.n))
+              let o ← GenP.poly_negate_inplace_ps tl (s2 - s1) l.n l.qs.toList
+              pure (GenP.splice a (s1 * (l.size * l.n)) o))
+        else pure a : R (List Nat)) =
+      (do let ys ← (List.range' s1 (s2 - s1)).mapM (fun i => if sub then rnsNeg l (gt_U l d2 i) else pure (gt_U l d2 i))
+          pure (O ++ (ys.map (flattenRns l.size l.n)).flatten)) := by
+  have hmul : s2 * (l.size * l.n) = s1 * (l.size * l.n) + (s2 - s1) * (l.size * l.n) := by
+    rw [← Nat.add_mul]; congr 1; omega
+  have hT : (d2.drop (s1 * (l.size * l.n))).length = (s2 - s1) * (l.size * l.n) := by rw [List.length_drop, h2, hmul]; omega
+  have hsl2 : GenP.slice d2 (s1 * (l.size * l.n)) (s2 * (l.size * l.n)) = .ok (d2.drop (s1 * (l.size * l.n))) :=
+    gt_slice_drop d2 _ _ h2 (Nat.mul_le_mul_right _ (Nat.le_of_lt hlt))
+  have hTflat := gt_tail_flat l d2 s1 (s2 - s1) (by rw [h2]; congr 1; omega)
+  have hTneg : (List.range' 0 (s2 - s1)).mapM (fun i => rnsNeg l (unflattenRns l.size l.n (gp_blk (l.size * l.n) (d2.drop (s1 * (l.size * l.n))) i))) =
+      (List.range' s1 (s2 - s1)).mapM (fun i => rnsNeg l (gt_U l d2 i)) := by
+    have hr : List.range' s1 (s2 - s1) = (List.range' 0 (s2 - s1)).map (fun i => s1 + i) := by
+      rw [List.map_add_range']; simp
+    rw [hr, gc_mapM_comp]
+    apply gp_mapM_congr'
+    intro i _
+    simp only [gt_U, gt_blk_drop]
+  rw [hsl2]
+  generalize d2.drop (s1 * (l.size * l.n)) = T at hT hTflat hTneg ⊢
+  have e1 : s1 * (l.size * l.n) = O.length := hO.symm
+  have e2 : s2 * (l.size * l.n) = O.length + Z.length := by rw [hmul, hO, hZ]
+  have hZT : Z.length = T.length := by rw [hT, hZ]
+  rw [e2, e1, gt_slice_app O Z]
+  simp only [bind, Except.bind]
+  rw [gt_copy_app O Z T hZT.symm]
+  simp only []
+  cases sub with
+  | false =>
+    simp only [Bool.false_eq_true, if_false]
+    rw [gt_mapM_pure]
+    simp only [pure, Except.pure]
+    rw [hTflat]
+  | true =>
+    simp only [if_true]
+    rw [hZT, gt_slice_app O T]
+    simp only []
+    rw [gp_poly_negate_inplace_ps_model l T (s2 - s1) hpl (by rw [hT]) (by rw [hT]; omega)]
+    rw [List.range_eq_range', hTneg, ← hT, List.drop_length]
+    cases hm : (List.range' s1 (s2 - s1)).mapM (fun i => rnsNeg l (gt_U l d2 i)) with
+    | error e => rfl
+    | ok outs =>
+      simp only [bind, Except.bind, pure, Except.pure, List.append_nil]
+      have hol : ((outs.map (flattenRns l.size l.n)).flatten).length = T.length := by
+        rw [gt_flatten_length, hT, gp_mapM_lengthG _ _ _ hm, List.length_range']
+      rw [gt_splice_app O _ _ hol]
+
 end HC
